@@ -121,12 +121,12 @@ void run_case(verif::Src& s, verif::Stats& st, const bool literal)
 
     std::vector<Orig> origs;
     bool f_accepted = false, f_refused = false;
-    unsigned nops = s.range<unsigned>(2, 10);
+    unsigned nops = s.range<unsigned>(2, 12);
     for (unsigned op = 0; op < nops && !s.exhausted(); ++op) {
         unsigned kind = s.range<unsigned>(0, 9);
         L = ws.Ledger();
         st.mix(uint64_t(kind));
-        if (kind <= 2 || origs.empty()) {
+        if (kind <= 1 || origs.empty()) {
             // wallet-created payment
             wallet::CCoinControl cc;
             cc.m_feerate = CFeeRate{s.pick<CAmount>({2000, 1000, 10000, 25000})};
@@ -179,7 +179,7 @@ void run_case(verif::Src& s, verif::Stats& st, const bool literal)
             if (ws.Submit(res->tx).m_result_type != MempoolAcceptResult::ResultType::VALID) { ws.AbandonFloating(); continue; }
             st.cls("child-of-original");
             st.note("child of ", og.tx->GetHash().ToString().substr(0, 8));
-        } else if (kind == 5) {
+        } else if (kind == 5 || kind == 2) {
             std::vector<CTransactionRef> cands;
             for (auto& tx : L.mempool_txs) if (s.chance(170)) cands.push_back(tx);
             auto m = ws.Mine(sim.TipHash(), cands, {}, 200 + op, &L.chain_utxo);
@@ -189,6 +189,9 @@ void run_case(verif::Src& s, verif::Stats& st, const bool literal)
         } else {
             // ---------------------------------------------------------------- bump
             size_t oi = s.index(origs.size());
+            if (s.chance(70)) { // prefer an original that is already confirmed
+                for (size_t k = 0; k < origs.size(); ++k) if (L.in_chain.count(origs[k].tx->GetHash())) { oi = k; break; }
+            }
             Orig& og = origs[oi];
             const Txid txid = og.tx->GetHash();
             const bool confirmed = L.in_chain.count(txid) > 0;
@@ -280,11 +283,16 @@ void run_case(verif::Src& s, verif::Stats& st, const bool literal)
             VCHECK((__int128)*new_fee_model * 1000 >= (__int128)*old_fee_model * 1000 + (__int128)incremental * vsize, "c56.fee-increment", "new fee", *new_fee_model, "old fee", *old_fee_model,
                    "incremental", incremental, "sat/kvB x", vsize, "vB", "mode", mode, "| history:", st.sample);
             if (rate) VCHECK((__int128)*new_fee_model * 1000 >= (__int128)*rate * vsize, "c56.fee-below-requested", "new fee", *new_fee_model, "requested", *rate, "sat/kvB x", vsize, "vB");
-            // commit + submit: the mempool must take it as a replacement of the original
-            Txid bumped;
-            std::vector<bilingual_str> cerr;
-            auto cres = wallet::feebumper::CommitTransaction(*ws.w, txid, CMutableTransaction(newtx), cerr, bumped);
-            VCHECK(cres == wallet::feebumper::Result::OK, "c56.harness", "feebumper::CommitTransaction failed");
+            // commit + submit: the mempool must take it as a replacement of the original. (A replacement with a foreign input is the psbtbumpfee
+            // flow: it is never committed through the wallet -- CWallet::CommitTransaction requires every input's parent in the wallet.)
+            if (og.all_mine) {
+                Txid bumped;
+                std::vector<bilingual_str> cerr;
+                auto cres = wallet::feebumper::CommitTransaction(*ws.w, txid, CMutableTransaction(newtx), cerr, bumped);
+                VCHECK(cres == wallet::feebumper::Result::OK, "c56.harness", "feebumper::CommitTransaction failed");
+            } else {
+                st.cls("bump-with-foreign-input");
+            }
             auto sub = ws.Submit(MakeTransactionRef(newtx));
             VCHECK(sub.m_result_type == MempoolAcceptResult::ResultType::VALID, "c56.not-accepted", "mempool rejects the replacement:", sub.m_state.ToString(), "new fee", *new_fee_model, "old fee",
                    *old_fee_model, "vsize", vsize, "mode", mode, "| history:", st.sample);
@@ -308,7 +316,7 @@ void run_case(verif::Src& s, verif::Stats& st, const bool literal)
 } // namespace
 
 VERIF_TARGET(c56_bump, nullptr, 96, 700,
-             "a funded descriptor wallet on a regtest node; ops (<=10): wallet-created payment (1-2 recipients, with/without change, signalling or not, "
+             "a funded descriptor wallet on a regtest node; ops (<=12): wallet-created payment (1-2 recipients, with/without change, signalling or not, "
              "committed + broadcast), harness-built payment mixing a wallet coin with a foreign coin, child spending an original's unconfirmed change, mine a "
              "subset of the mempool, bump an original (also confirmed / already bumped / with descendants / not-all-ours ones) in one of four modes: default, "
              "explicit feerate (from too low to 4x), caller-supplied outputs, fee taken from a designated change output; successful bumps are signed, "
